@@ -3,3 +3,5 @@ import Bec2Verif.Props.C01
 import Bec2Verif.Props.C08
 import Bec2Verif.Props.C16
 import Bec2Verif.Props.C05
+import Bec2Verif.Props.C03
+import Bec2Verif.Props.C04
